@@ -132,6 +132,12 @@ func ValidateAttribute(a PathAttributeInterface, rfs map[Family]BGPAddPathMode, 
 			}
 		}
 	case *PathAttributeNextHop:
+		// RFC 7606 7.3: the attribute is malformed unless it holds an IPv4
+		// address (an IPv6 next hop travels in MP_REACH_NLRI)
+		if p.Value.Is6() {
+			data, _ := a.Serialize()
+			return false, NewMessageErrorWithErrorHandling(eCode, uint8(BGP_ERROR_SUB_ATTRIBUTE_LENGTH_ERROR), data, getErrorHandlingFromPathAttribute(p.GetType()), nil, "NEXT_HOP attribute length is not 4")
+		}
 
 		isZero := func(ip net.IP) bool {
 			res := ip[0] & 0xff
